@@ -89,12 +89,15 @@ func (p *c14Pipe) read(b []byte) (int, error) {
 	return n, nil
 }
 
-func (p *c14Pipe) write(b []byte) (int, error) {
+// write records the bytes (tap) before the reader can see them, atomically with the delivery:
+// whatever the peer has observed is in the recorder.
+func (p *c14Pipe) write(b []byte, tap func([]byte)) (int, error) {
 	p.mu.Lock()
 	defer p.mu.Unlock()
 	if p.closed {
 		return 0, io.ErrClosedPipe
 	}
+	tap(b)
 	p.buf = append(p.buf, b...)
 	p.cond.Broadcast()
 	return len(b), nil
@@ -214,11 +217,7 @@ type c14Conn struct {
 
 func (c *c14Conn) Read(b []byte) (int, error) { return c.r.read(b) }
 func (c *c14Conn) Write(b []byte) (int, error) {
-	n, err := c.w.write(b)
-	if err == nil {
-		c.rec.tap(c.dir, b)
-	}
-	return n, err
+	return c.w.write(b, func(b []byte) { c.rec.tap(c.dir, b) })
 }
 func (c *c14Conn) Close() error                     { c.r.close(); c.w.close(); return nil }
 func (c *c14Conn) LocalAddr() net.Addr              { return c14Addr{} }
